@@ -141,15 +141,16 @@ def run_tool(case, text=None):
     from pyflyby import _imports2s as I
     text = case["text"] if text is None else text
     params = make_params(case.get("params", {}))
-    blk = PythonBlock(FileText(text))
+    blk = PythonBlock(FileText(text, filename=case["filename"])) if case.get("filename") else PythonBlock(FileText(text))
     tool = case["tool"]
     if tool == "reformat":
         out = I.reformat_import_statements(blk, params=params)
     elif tool == "tidy":
         db = make_db(case.get("known", []), case.get("mandatory", []))
         f = case.get("flags", {})
+        ru = f.get("remove_unused", True)
         out = I.fix_unused_and_missing_imports(blk, add_missing=f.get("add_missing", True),
-                                               remove_unused=f.get("remove_unused", True),
+                                               remove_unused=("AUTOMATIC" if ru == "AUTOMATIC" else ru),
                                                add_mandatory=f.get("add_mandatory", True), db=db, params=params)
     elif tool == "transform0":
         out = I.transform_imports(blk, case.get("map", {}), params=params)
@@ -350,7 +351,8 @@ def block_trace(case):
     from pyflyby._file import FileText
     from pyflyby import _imports2s as I
     params = make_params(case.get("params", {}))
-    blk = PythonBlock(FileText(case["text"]))
+    blk = (PythonBlock(FileText(case["text"], filename=case["filename"])) if case.get("filename")
+           else PythonBlock(FileText(case["text"])))
     rec = dict(transformers=[], scans=[])
     orig_output = I.SourceToSourceFileImportsTransformation.output
     orig_scan = I.scan_for_import_issues
@@ -406,9 +408,14 @@ def block_requests(case, tr):
     if case["tool"] == "reformat":
         return [dict(op="reformat", stmts=tr["stmts"])]
     f = case.get("flags", {})
+    ru = f.get("remove_unused", True)
+    if ru == "AUTOMATIC":
+        # the documented default: off for __init__.py and for files under a .pyflyby directory
+        fn = case.get("filename") or ""
+        ru = not (fn and (fn.rsplit("/", 1)[-1] == "__init__.py" or ".pyflyby" in fn.split("/")))
     return [dict(op="tidy2", stmts=tr["stmts"], unused=tr.get("unused", []), missing=tr.get("missing", []),
                  known=tr["known"], mandatory=tr["mandatory"], add_missing=f.get("add_missing", True),
-                 remove_unused=f.get("remove_unused", True), add_mandatory=f.get("add_mandatory", True))]
+                 remove_unused=bool(ru), add_mandatory=f.get("add_mandatory", True))]
 
 
 def block_compare(case, tr, resps):
